@@ -454,10 +454,14 @@ func (st *Runtime) executeList(list *ListNode) (returnValue reflect.Value) {
 				}
 			}
 
+			var ifReturn reflect.Value
 			if isTrue(st.evalPrimaryExpressionGroup(node.Expression)) {
-				returnValue = st.executeList(node.List)
+				ifReturn = st.executeList(node.List)
 			} else if node.ElseList != nil {
-				returnValue = st.executeList(node.ElseList)
+				ifReturn = st.executeList(node.ElseList)
+			}
+			if ifReturn.IsValid() {
+				returnValue = ifReturn
 			}
 			if isLet {
 				st.releaseScope()
@@ -499,9 +503,10 @@ func (st *Runtime) executeList(list *ListNode) (returnValue reflect.Value) {
 				}
 			}
 
+			var rangeReturn reflect.Value
 			indexValue, rangeValue, end := ranger.Range()
 			if !end {
-				for !end && !returnValue.IsValid() {
+				for !end && !rangeReturn.IsValid() {
 					if isSet {
 						if isLet {
 							if keyVarSlot >= 0 {
@@ -522,11 +527,14 @@ func (st *Runtime) executeList(list *ListNode) (returnValue reflect.Value) {
 					if valVarSlot < 0 {
 						st.context = rangeValue
 					}
-					returnValue = st.executeList(node.List)
+					rangeReturn = st.executeList(node.List)
 					indexValue, rangeValue, end = ranger.Range()
 				}
 			} else if node.ElseList != nil {
-				returnValue = st.executeList(node.ElseList)
+				rangeReturn = st.executeList(node.ElseList)
+			}
+			if rangeReturn.IsValid() {
+				returnValue = rangeReturn
 			}
 			cleanup()
 			st.context = context
@@ -535,7 +543,9 @@ func (st *Runtime) executeList(list *ListNode) (returnValue reflect.Value) {
 			}
 		case NodeTry:
 			node := node.(*TryNode)
-			returnValue = st.executeTry(node)
+			if tryReturn := st.executeTry(node); tryReturn.IsValid() {
+				returnValue = tryReturn
+			}
 		case NodeYield:
 			node := node.(*YieldNode)
 			if node.IsContent {
@@ -558,7 +568,9 @@ func (st *Runtime) executeList(list *ListNode) (returnValue reflect.Value) {
 			st.executeYieldBlock(block, block.Parameters, block.Parameters, block.Expression, block.Content)
 		case NodeInclude:
 			node := node.(*IncludeNode)
-			returnValue = st.executeInclude(node)
+			if includeReturn := st.executeInclude(node); includeReturn.IsValid() {
+				returnValue = includeReturn
+			}
 		case NodeReturn:
 			node := node.(*ReturnNode)
 			returnValue = st.evalPrimaryExpressionGroup(node.Value)
